@@ -28,6 +28,7 @@ type Env struct {
 	pkg     *types.Package
 	pure    bool // inside a spec function: no state access
 	curFunc string
+	top0    string // allocation frontier that \top0 denotes (callee contracts: the pre-call frontier)
 }
 
 func (e *Engine) baseEnv(fr *Frame, st *State) *Env {
@@ -212,6 +213,9 @@ func (env *Env) ident(name string) Val {
 		}
 		return intv(v.T)
 	case "\\top0":
+		if env.top0 != "" {
+			return intv(env.top0)
+		}
 		return intv(env.fr.entry.top)
 	}
 	if env.pure {
@@ -804,7 +808,14 @@ func (env *Env) evalCall(x ECall) Val {
 		return env.toSeq(env.eval(x.Args[0]))
 	case "raw":
 		// the whole backing array of a slice, indexed absolutely
-		v := env.toSeq(env.eval(x.Args[0]))
+		v0 := env.eval(x.Args[0])
+		if v0.K == KSlice {
+			cs := flat(sliceElem(v0.Typ))
+			if len(cs) != 1 || cs[0].Sort != "Int" {
+				return Val{K: KSlice, Typ: v0.Typ, Fs: []Val{v0.Fs[0], intv("0"), intv(sx("+", v0.Fs[1].T, v0.Fs[2].T)), intv(sx("+", v0.Fs[1].T, v0.Fs[3].T))}}
+			}
+		}
+		v := env.toSeq(v0)
 		return Val{K: KSeq, Fs: []Val{v.Fs[0], intv("0"), intv(sx("+", v.Fs[1].T, v.Fs[2].T))}}
 	case "min":
 		a, b := env.eval(x.Args[0]).T, env.eval(x.Args[1]).T
